@@ -94,14 +94,14 @@ theorem index_size_eq (count listSize : Nat) (h : listSize + 17 < U64) :
   omega
 
 theorem index_size_le (count listSize : Nat) (h : listSize + 17 < U64) :
-    Kernels.index_size count listSize ≤ listSize + 16 := by
+    Kernels.index_size count listSize ≤ listSize + 17 := by
   unfold Kernels.index_size Kernels.vli_ceil4
   have := index_size_unpadded_le count listSize (by unfold U64 at *; omega)
   unfold U64 at h
   omega
 
 /-- `index_stream_size` -/
-theorem index_stream_size_eq (blocksSize count listSize : Nat) (h : blocksSize + listSize + 40 < U64) :
+theorem index_stream_size_eq (blocksSize count listSize : Nat) (h : blocksSize + listSize + 41 < U64) :
     Kernels.index_stream_size blocksSize count listSize = Container.indexStreamSize blocksSize count listSize
     ∧ Kernels.index_stream_size blocksSize count listSize = Index.indexStreamSize blocksSize count listSize := by
   unfold Kernels.index_stream_size Container.indexStreamSize Index.indexStreamSize Container.STREAM_HEADER_SIZE Index.STREAM_HEADER_SIZE
@@ -111,38 +111,32 @@ theorem index_stream_size_eq (blocksSize count listSize : Nat) (h : blocksSize +
   rw [← h1.1, ← h1.2]
   omega
 
-/-- `index_file_size` on the domain the models are written for: the sum of the earlier Streams and this Stream's
-    padding is a valid VLI, `unpadded_sum` and the List of Records size are valid sizes. The result LZMA_VLI_UNKNOWN
-    is `none` in the C02 model. -/
-theorem index_file_size_eq (cb us count listSize sp : Nat) (h1 : cb + sp ≤ 9223372036854775807)
-    (h2 : us ≤ 9223372036854775804) (h3 : listSize ≤ 9223372036854775807) :
+/-- `index_file_size` on the domain the models are written for: the first 64-bit sum does not wrap (in every state
+    `lzma_index_append` / `lzma_index_stream_padding` / `lzma_index_cat` can reach, `compressed_base + stream_padding`
+    is at most LZMA_VLI_MAX - 32 and `unpadded_sum ≤ UNPADDED_SIZE_MAX`) and the List of Records size is a valid VLI.
+    The result LZMA_VLI_UNKNOWN is `none` in the C02 model. -/
+theorem index_file_size_eq (cb us count listSize sp : Nat) (h1 : cb + sp + us + 27 < U64)
+    (h3 : listSize ≤ 9223372036854775807) :
     Kernels.index_file_size cb us count listSize sp = ofOpt (Container.indexFileSize cb us count listSize sp)
     ∧ Kernels.index_file_size cb us count listSize sp = Index.indexFileSize cb us count listSize sp := by
-  unfold Kernels.index_file_size Container.indexFileSize Index.indexFileSize Container.STREAM_HEADER_SIZE Index.STREAM_HEADER_SIZE
-    Vli.VLI_MAX Index.VLI_MAX Index.VLI_UNKNOWN
+  unfold U64 at h1
   have hc := vli_ceil4_eq us (by unfold U64; omega)
   have hi := index_size_eq count listSize (by unfold U64; omega)
   have hl := index_size_le count listSize (by unfold U64; omega)
-  rw [← hc.1, ← hc.2, ← hi.1, ← hi.2]
   have hcl : Kernels.vli_ceil4 us ≤ us + 3 := by unfold Kernels.vli_ceil4; omega
-  have e1 : (((cb + 24) % 18446744073709551616 + sp) % 18446744073709551616 + Kernels.vli_ceil4 us) % 18446744073709551616
-      = cb + 2 * 12 + sp + Kernels.vli_ceil4 us := by omega
+  unfold Kernels.index_file_size Container.indexFileSize Index.indexFileSize Container.STREAM_HEADER_SIZE Index.STREAM_HEADER_SIZE
+    Vli.VLI_MAX Index.VLI_MAX Index.VLI_UNKNOWN
+  rw [← hc.1, ← hc.2, ← hi.1, ← hi.2]
+  generalize Kernels.vli_ceil4 us = c at *
+  generalize Kernels.index_size count listSize = s at *
+  have e1 : (((cb + 24) % 18446744073709551616 + sp) % 18446744073709551616 + c) % 18446744073709551616 = cb + 2 * 12 + sp + c := by omega
   simp only [e1]
-  constructor
-  · by_cases hA : cb + 2 * 12 + sp + Kernels.vli_ceil4 us > 9223372036854775807
-    · simp [hA, ofOpt]
-    · simp only [hA, if_false]
-      have e2 : (cb + 2 * 12 + sp + Kernels.vli_ceil4 us + Kernels.index_size count listSize) % 18446744073709551616
-          = cb + 2 * 12 + sp + Kernels.vli_ceil4 us + Kernels.index_size count listSize := by omega
-      rw [e2]
-      by_cases hB : cb + 2 * 12 + sp + Kernels.vli_ceil4 us + Kernels.index_size count listSize > 9223372036854775807
-      · simp [hB, ofOpt]
-      · simp [hB, ofOpt]
-  · by_cases hA : cb + 2 * 12 + sp + Kernels.vli_ceil4 us > 9223372036854775807
-    · simp [hA]
-    · simp only [hA, if_false]
-      have e2 : (cb + 2 * 12 + sp + Kernels.vli_ceil4 us + Kernels.index_size count listSize) % 18446744073709551616
-          = cb + 2 * 12 + sp + Kernels.vli_ceil4 us + Kernels.index_size count listSize := by omega
-      rw [e2]
+  by_cases hA : cb + 2 * 12 + sp + c > 9223372036854775807
+  · simp [hA, ofOpt]
+  · have e2 : (cb + 2 * 12 + sp + c + s) % 18446744073709551616 = cb + 2 * 12 + sp + c + s := by omega
+    simp only [hA, if_false, e2]
+    by_cases hB : cb + 2 * 12 + sp + c + s > 9223372036854775807
+    · simp [hB, ofOpt]
+    · simp [hB, ofOpt]
 
 end XzVerif.Kernels
